@@ -339,7 +339,8 @@ class Entry(object):
     """
 
     def __init__(self, name, cls, build, new, val, hstype=None, exact=False, norm=None, wellformed=None,
-                 lossy=False, stricter=False, reject_also=(), parse=None, write=None, model_name=None):
+                 lossy=False, stricter=False, reject_also=(), parse=None, write=None, model_name=None,
+                 custom_values=None, custom_lens=None, hs_len=True):
         self.name = name
         self.model_name = model_name or name
         self.cls = cls
@@ -355,6 +356,9 @@ class Entry(object):
         self.reject_also = tuple(reject_also)
         self._parse = parse
         self._write = write
+        self.hs_len = hs_len                    # the structure starts with the 3-byte handshake length
+        self.custom_values = custom_values      # formats without a Fmt tree: run -> [(kind, value)]
+        self.custom_lens = custom_lens          # bytes -> [(offset, width)] of the grouped length fields
 
     def write(self, obj):
         """-> model-level bytes (handshake type byte checked and stripped)"""
@@ -764,6 +768,121 @@ def entries(real):
                              B(t.target_hash), B(t.signature))))
     from tlslite.x509 import DelegatedCredential
     add(Entry("delegatedCredentialStruct", "DelegatedCredential", dc_build, DelegatedCredential, dc_val))
+
+    # ---- SSLv2-framed structures (hand-written model, TlsModel/Ssl2.lean)
+    from tlslite.constants import SSL2HandshakeType as H2
+
+    def rh2_values(run):
+        rng = run.ctx.rng
+        out = []
+        for l, p, e in [(0, 0, 0), (1, 0, 0), (0x7fff, 0, 0), (0x8000, 0, 0), (0x3fff, 1, 0), (0x4000, 1, 0), (0x3fff, 0, 1),
+                        (0x4000, 0, 1), (5, 255, 1), (5, 256, 0), (0x10000, 0, 0), (0xffff, 7, 1)] + \
+                [(rng.randrange(0x8000), 0, 0) for _ in range(4)] + \
+                [(rng.randrange(0x4000), rng.randrange(1, 256), rng.randrange(2)) for _ in range(4)]:
+            short = p == 0 and e == 0
+            fits = (l < 0x8000 if short else l < 0x4000) and p < 256
+            out.append(("valid" if fits else "oversize", seqv(N(l), N(p), N(e))))
+        return out
+    # a 3-byte header with zero padding and no escape is legal SSLv2 but is written back as 2 bytes
+    add(Entry("recordHeader2", "RecordHeader2", lambda v: M.RecordHeader2().create(v[1][1], v[2][1][1], bool(v[2][2][1])),
+              M.RecordHeader2, lambda o: seqv(N(o.length), N(o.padding), N(int(bool(o.securityEscape)))),
+              lossy=True, custom_values=rh2_values, custom_lens=lambda d: []))
+
+    def rb(run, n):
+        return run.gen.rb(n)
+
+    def ciphers(run, n):
+        return L([N(run.ctx.rng.randrange(1 << 24)) for _ in range(n)])
+
+    def pad32(b):
+        return bytes(32 - len(b)) + bytes(b) if len(b) < 32 else bytes(b)
+
+    def ch2_values(run):
+        rng = run.ctx.rng
+        out = []
+        for nc, ls, lc in [(0, 0, 32), (1, 0, 32), (3, 16, 32), (5, 32, 32), (21845, 0, 32), (21846, 0, 32),
+                           (0, 65535, 32), (0, 65536, 32), (0, 0, 65536)] + [(rng.randrange(8), rng.choice([0, 16, 32]), 32)] * 3:
+            v = seqv(N(rng.choice([0, 2, 3])), N(rng.randrange(5)), ciphers(run, nc), B(rb(run, ls)), B(rb(run, lc)))
+            fits = nc * 3 < 65536 and ls < 65536 and lc < 65536
+            out.append(("valid" if fits else "oversize", v))
+        out.append(("oversize", seqv(N(256), N(0), L([]), B(b""), B(bytes(32)))))
+        out.append(("oversize", seqv(N(3), N(0), L([N(1 << 24)]), B(b""), B(bytes(32)))))
+        return out
+
+    def ch2_build(v):
+        a, b, cs, sid, ch = unseq(v, 5)
+        o = M.ClientHello(ssl2=True)
+        o.create((a[1], b[1]), _ba(ch[1]), _ba(sid[1]), [x[1] for x in cs[1]])
+        return o
+
+    def ch2_norm(v):
+        try:
+            parts = unseq(v, 5)
+            parts[4] = B(pad32(parts[4][1]))
+            return seqv(*parts)
+        except Exception:
+            return v
+    # a challenge shorter than 32 bytes is stored left-padded: such inputs re-serialise longer
+    add(Entry("ssl2ClientHello", "ClientHello(ssl2)", ch2_build, lambda: M.ClientHello(ssl2=True),
+              lambda o: seqv(N(o.client_version[0]), N(o.client_version[1]), L([N(x) for x in o.cipher_suites]),
+                             B(o.session_id), B(o.random)),
+              hstype=H2.client_hello, hs_len=False, norm=ch2_norm, lossy=True, custom_values=ch2_values,
+              custom_lens=lambda d: [(2, 2), (4, 2), (6, 2)]))
+
+    def sh2_values(run):
+        rng = run.ctx.rng
+        out = []
+        for lcert, nc, ls in [(0, 0, 0), (1, 1, 16), (300, 3, 16), (65535, 0, 0), (65536, 0, 0), (0, 21846, 0), (0, 0, 65536)] + \
+                [(rng.randrange(50), rng.randrange(6), rng.choice([0, 16]))] * 3:
+            v = seqv(N(rng.randrange(2)), N(rng.randrange(256)), N(rng.randrange(4)), N(rng.randrange(4)), B(rb(run, lcert)),
+                     ciphers(run, nc), B(rb(run, ls)))
+            out.append(("valid" if (lcert < 65536 and nc * 3 < 65536 and ls < 65536) else "oversize", v))
+        out.append(("oversize", seqv(N(256), N(0), N(0), N(2), B(b""), L([]), B(b""))))
+        return out
+
+    def sh2_build(v):
+        hit, ct, a, b, cert, cs, sid = unseq(v, 7)
+        return M.ServerHello2().create(hit[1], ct[1], (a[1], b[1]), _ba(cert[1]), [x[1] for x in cs[1]], _ba(sid[1]))
+    add(Entry("ssl2ServerHello", "ServerHello2", sh2_build, M.ServerHello2,
+              lambda o: seqv(N(o.session_id_hit), N(o.certificate_type), N(o.server_version[0]), N(o.server_version[1]),
+                             B(o.certificate), L([N(x) for x in o.ciphers]), B(o.session_id)),
+              hstype=H2.server_hello, hs_len=False, custom_values=sh2_values, custom_lens=lambda d: [(4, 2), (6, 2), (8, 2)]))
+
+    def cmk_values(run):
+        rng = run.ctx.rng
+        out = []
+        for a, b, c in [(0, 0, 0), (5, 128, 8), (65535, 0, 0), (65536, 0, 0), (0, 65536, 0), (0, 0, 65536), (11, 3, 0)] + \
+                [(rng.randrange(12), rng.randrange(140), rng.choice([0, 8, 16]))] * 3:
+            v = seqv(N(rng.randrange(1 << 24)), B(rb(run, a)), B(rb(run, b)), B(rb(run, c)))
+            out.append(("valid" if max(a, b, c) < 65536 else "oversize", v))
+        out.append(("oversize", seqv(N(1 << 24), B(b""), B(b""), B(b""))))
+        return out
+    add(Entry("ssl2ClientMasterKey", "ClientMasterKey",
+              lambda v: M.ClientMasterKey().create(v[1][1], _ba(v[2][1][1]), _ba(v[2][2][1][1]), _ba(v[2][2][2][1])),
+              M.ClientMasterKey, lambda o: seqv(N(o.cipher), B(o.clear_key), B(o.encrypted_key), B(o.key_argument)),
+              hstype=H2.client_master_key, hs_len=False, custom_values=cmk_values, custom_lens=lambda d: [(3, 2), (5, 2), (7, 2)]))
+
+    # ---- CompressedCertificate: framing in the model, (de)compression and the inner Certificate abstract
+    # (lossy: the compressed blob is re-created by write(); zlib tolerates bytes after the end of its stream)
+    def cc_values(run):
+        rng = run.ctx.rng
+        out = []
+        for n in (0, 1, 2, 3):
+            certs = [mk_x509(bytes([0x30, 0x82]) + rb(run, rng.randrange(1, 300))) for _ in range(n)]
+            cc = M.CompressedCertificate(CertificateType.x509).create(
+                1, [M.CertificateEntry(CertificateType.x509).create(c, []) for c in certs], _ba(rb(run, rng.randrange(0, 4))))
+            out.append(("valid", seqv(N(cc.compression_algo), N(cc._uncompressed_msg_len), B(cc._compressed_msg))))
+        return out
+
+    def cc_build(v):
+        o = M.CompressedCertificate(CertificateType.x509)
+        o.compression_algo, o._uncompressed_msg_len, o._compressed_msg = v[1][1], v[2][1][1], bytes(v[2][2][1])
+        return o
+    add(Entry("compressedCertificate", "CompressedCertificate", cc_build,
+              lambda: M.CompressedCertificate(CertificateType.x509),
+              lambda o: seqv(N(o.compression_algo), N(o._uncompressed_msg_len), B(o._compressed_msg)),
+              hstype=HT.compressed_certificate, stricter=True, lossy=True, custom_values=cc_values,
+              norm=lambda v: P(v[1], v[2][1]) if v[0] == 'p' and v[2][0] == 'p' else v))
 
     # ---- extension_data of every class, and whole extensions in every context
     for cls, py in EXT_PY.items():
